@@ -149,8 +149,20 @@ pub struct Outcome {
 
 pub fn item_of(d: &Data) -> Item {
     match d {
-        Data::KeyValue(kv) => Item::Kv(kv.key().to_vec(), kv.value().to_vec()),
-        Data::Bucket(b) => Item::Bucket(b.name().to_vec()),
+        Data::KeyValue(kv) => {
+            // every accessor of the pair must agree: key()/value(), kv(), and the enum-level key() / kv() / is_kv()
+            let (k2, v2) = kv.kv();
+            if k2 != kv.key() || v2 != kv.value() || d.key() != kv.key() || !d.is_kv() || d.kv().value() != kv.value() {
+                return Item::Kv(b"<accessors of one KVPair disagree>".to_vec(), kv.key().to_vec());
+            }
+            Item::Kv(kv.key().to_vec(), kv.value().to_vec())
+        }
+        Data::Bucket(b) => {
+            if d.is_kv() || d.key() != b.name() {
+                return Item::Bucket(b"<accessors of one BucketName disagree>".to_vec());
+            }
+            Item::Bucket(b.name().to_vec())
+        }
     }
 }
 
@@ -163,27 +175,34 @@ pub fn dump_bucket(b: &Bucket, depth: usize) -> Result<MBucket, String> {
         ..Default::default()
     };
     let mut items: Vec<Item> = Vec::new();
+    let mut names: Vec<Option<jammdb::BucketName>> = Vec::new();
     for d in b.cursor() {
-        items.push(item_of(&d));
-    }
-    for w in items.windows(2) {
-        if w[0].key() >= w[1].key() {
-            return Err(format!(
-                "cursor order: {} then {}",
-                show(w[0].key()),
-                show(w[1].key())
-            ));
+        let it = item_of(&d);
+        // (checked while iterating: a cursor that wraps around or repeats itself ends here, not in the OOM killer)
+        if let Some(prev) = items.last() {
+            if prev.key() >= it.key() {
+                return Err(format!("cursor order: {} then {}", show(prev.key()), show(it.key())));
+            }
         }
+        items.push(it);
+        names.push(match d {
+            Data::Bucket(bn) => Some(bn),
+            _ => None,
+        });
     }
-    for it in items {
+    for (idx, it) in items.into_iter().enumerate() {
         match it {
             Item::Kv(k, v) => {
                 out.entries.insert(k, crate::model::Entry::Val(v));
             }
             Item::Bucket(name) => {
-                let nb = b
-                    .get_bucket(name.clone())
-                    .map_err(|e| format!("get_bucket({}) on a listed bucket: {}", show(&name), e))?;
+                // the listed name itself is a valid argument (by reference, by value) as is a copy of its bytes
+                let nb = match (idx % 3, names[idx].take()) {
+                    (0, Some(bn)) => b.get_bucket(&bn),
+                    (1, Some(bn)) => b.get_bucket(bn),
+                    _ => b.get_bucket(name.clone()),
+                }
+                .map_err(|e| format!("get_bucket({}) on a listed bucket: {}", show(&name), e))?;
                 let sub = dump_bucket(&nb, depth + 1)?;
                 out.entries.insert(name, crate::model::Entry::Bucket(sub));
             }
@@ -197,22 +216,34 @@ pub fn dump_tx(tx: &Tx) -> Result<MBucket, String> {
     let mut out = MBucket::default();
     let mut names: Vec<Vec<u8>> = Vec::new();
     for (name, _b) in tx.buckets() {
-        names.push(name.name().to_vec());
-    }
-    for w in names.windows(2) {
-        if w[0] >= w[1] {
-            return Err(format!(
-                "tx.buckets() order: {} then {}",
-                show(&w[0]),
-                show(&w[1])
-            ));
+        let n = name.name().to_vec();
+        if let Some(prev) = names.last() {
+            if *prev >= n {
+                return Err(format!("tx.buckets() order: {} then {}", show(prev), show(&n)));
+            }
         }
+        names.push(n);
     }
     for name in names {
         let b = tx
             .get_bucket(name.clone())
             .map_err(|e| format!("tx.get_bucket({}) on a listed bucket: {}", show(&name), e))?;
         let sub = dump_bucket(&b, 1)?;
+        // `for entry in bucket` (IntoIterator for Bucket) must list what `bucket.cursor()` lists
+        let mut n_into = 0usize;
+        for d in b {
+            n_into += 1;
+            if n_into > sub.entries.len() + 8 {
+                break;
+            }
+            let it = item_of(&d);
+            if !sub.entries.contains_key(it.key()) {
+                return Err(format!("`for entry in bucket` on {} yields {} which cursor() does not list", show(&name), show(it.key())));
+            }
+        }
+        if n_into != sub.entries.len() {
+            return Err(format!("`for entry in bucket` on {} yields {} entries, cursor() {}", show(&name), n_into, sub.entries.len()));
+        }
         out.entries.insert(name, crate::model::Entry::Bucket(sub));
     }
     Ok(out)
@@ -1158,8 +1189,12 @@ fn exec_tx_inner(run: &mut Run, db: &DB, path: &Path, script: &TxScript, committ
                         let b = handles[hidx.unwrap()].as_ref().unwrap();
                         let mut c = b.cursor();
                         let mut real: Vec<Item> = Vec::new();
+                        let cap = work.at(&hpath).map(|m| m.entries.len()).unwrap_or(0) + 8;
                         for d in c.by_ref() {
                             real.push(item_of(&d));
+                            if real.len() > cap {
+                                break; // an iteration that never ends is reported as "wrong" below instead of filling memory
+                            }
                         }
                         // calling next() after the end must stay harmless
                         for _ in 0..2 {
@@ -1271,14 +1306,28 @@ fn exec_tx_inner(run: &mut Run, db: &DB, path: &Path, script: &TxScript, committ
                 }
                 if run.cfg.verify_each_op {
                     run.out.stats.full_verifications += 1;
-                    if let Some(d) = verify_tx_against(&tx, &work, true) {
-                        run.viol(
-                            Class::ReadInTx,
-                            format!("in-tx-view:{}", classify_diff(&d)),
-                            format!("after {:?}: {}", op, d),
-                        );
-                        run.out.aborted = true;
-                        break;
+                    // a panic raised by the READS of this verification belongs to the read side (C07), not to
+                    // the mutation that preceded it
+                    match util::catch(|| verify_tx_against(&tx, &work, true)) {
+                        Ok(None) => {}
+                        Ok(Some(d)) => {
+                            run.viol(
+                                Class::ReadInTx,
+                                format!("in-tx-view:{}", classify_diff(&d)),
+                                format!("after {:?}: {}", op, d),
+                            );
+                            run.out.aborted = true;
+                            break;
+                        }
+                        Err(p) => {
+                            run.viol(
+                                Class::ReadInTx,
+                                format!("in-tx-view:{}", util::panic_signature(&p)),
+                                format!("after {:?}: reading the transaction's own state panicked at {}:{}: {}", op, p.file, p.line, p.msg),
+                            );
+                            run.out.aborted = true;
+                            break;
+                        }
                     }
                 }
             }
